@@ -582,6 +582,30 @@ def _field_type(prog, cls, fld):
     return None
 
 
+def static_defined_ref(n, S):
+    """the reference to S that statement n (re)defines: `S = ..`, S handed to a non-const reference / pointer
+    parameter (filled by the callee), or S.clear() / S.resize() / S.assign()"""
+    from e2_deps import _split_sig
+    if n["k"] in ("Assign", "OpCall") and n.get("op") == "=":
+        l = (n.get("c") or [None])[0]
+        if l is not None and l["k"] == "DeclRefExpr" and l.get("q") == S:
+            return l
+        return None
+    if n["k"] in ("Call", "MCall"):
+        types = _split_sig(n.get("sig") or "")
+        for i, a in enumerate(call_args(n)):
+            if a is not None and a["k"] == "DeclRefExpr" and a.get("q") == S and i < len(types):
+                t = types[i].strip()
+                if t.endswith("&") and not t.startswith("const "):
+                    return a
+        if n["k"] == "MCall" and (n.get("callee") or "").split("::")[-1] in ("clear", "assign"):
+            o = call_obj(n)
+            if o is not None and o["k"] == "DeclRefExpr" and o.get("q") == S:
+                return o
+    return None
+
+
+
 # ------------------------------------------------------------------------------------------
 def hidden_static_rule(prog, chk, unit_suffix, rule, floor_sites, only=None):
     """R10.4: a non-const file-static that one function assigns and another reads is a hidden argument.
@@ -646,12 +670,7 @@ def hidden_static_rule(prog, chk, unit_suffix, rule, floor_sites, only=None):
             callers.setdefault(t, []).append((f, n))
 
     def is_assign_of(S):
-        def p(n):
-            if n["k"] != "Assign" or n.get("op") != "=":
-                return False
-            l = (n.get("c") or [None])[0]
-            return l is not None and l["k"] == "DeclRefExpr" and l.get("q") == S
-        return p
+        return lambda n: static_defined_ref(n, S) is not None
 
     nsites = 0
     inventory = []
@@ -663,10 +682,9 @@ def hidden_static_rule(prog, chk, unit_suffix, rule, floor_sites, only=None):
         for f in funcs:
             lhs = set()
             for n in f.walk():
-                if n["k"] == "Assign" and n.get("op") == "=":
-                    l = (n.get("c") or [None])[0]
-                    if l is not None and l["k"] == "DeclRefExpr" and l.get("q") == S:
-                        lhs.add(l["i"]); writers.add(f.name)
+                l = static_defined_ref(n, S)
+                if l is not None:
+                    lhs.add(l["i"]); writers.add(f.name)
             for n in f.walk():
                 if n["k"] == "DeclRefExpr" and n.get("q") == S and n["i"] not in lhs:
                     reads.append((f, n))
@@ -737,6 +755,43 @@ def hidden_static_rule(prog, chk, unit_suffix, rule, floor_sites, only=None):
                        key=key)
     chk.extra.setdefault("hidden_static_inventory", {})[unit_suffix] = inventory
     chk.floor(rule + "-callsites", nsites, floor_sites)
+
+
+def scratch_static_rule(prog, chk, unit_suffixes, rule, floor_n):
+    """a non-const file-static that a function both (re)fills and reads is a scratch buffer of that function: every read is
+    dominated by the refill, so nothing is carried over from the previous call (the previous call may have been made on
+    another object, or before the object changed)"""
+    n = 0
+    for suf in unit_suffixes:
+        unit = [u for u in prog.units if u.endswith(suf)]
+        if not unit:
+            raise facts.AnalysisBroken("unit %s not analysed" % suf)
+        unit = unit[0]
+        statics = {g["q"]: g for g in prog.globals if g["unit"] == unit and g.get("fstatic") and not g.get("const") and g["file"] == unit}
+        for S in sorted(statics):
+            for f in sorted(prog.funcs, key=lambda x: (x.file, x.line)):
+                if f.cfg is None:
+                    continue
+                defs = set()
+                for x in f.walk():
+                    l = static_defined_ref(x, S)
+                    if l is not None:
+                        defs.add(l["i"])
+                if not defs:
+                    continue
+                reads = [x for x in f.walk() if x["k"] == "DeclRefExpr" and x.get("q") == S and x["i"] not in defs]
+                if not reads:
+                    continue
+                g = CFG(f)
+                chk.analysed(f)
+                bad = [r for r in reads if g.pos_of(r) is not None and not g.dominated_by(r, lambda y: static_defined_ref(y, S) is not None)]
+                n += 1
+                chk.ob(rule, "%s: every read of the file-static scratch buffer %s follows its refill" % (f.name, statics[S]["n"]),
+                       f.loc(bad[0]) if bad else f.loc(reads[0]), not bad,
+                       detail=None if not bad else "%s is refilled on some paths only: on the others the function works with what an earlier "
+                       "call (on another object, or before this one changed) left in it" % statics[S]["n"],
+                       key="%s|%s|%s" % (rule, statics[S]["n"], f.name))
+    chk.floor(rule, n, floor_n)
 
 
 # ------------------------------------------------------------------------------------------
